@@ -959,6 +959,8 @@ def run_rsa(ctx, eng, cases, meta, rsa_cache):
             for h in [None, H.MD5, H.SHA_1, H.SHA_224, H.SHA_256, H.SHA_384, H.SHA_512, H.MD2]:
                 if pad != P.OAEP and h not in (None, H.SHA_256):
                     continue
+                if quick and size == 2048 and h not in (None, H.SHA_256, H.SHA_512, H.MD2):
+                    continue
                 hid = hid_of_hash(h)
                 if pad == P.OAEP and hid:
                     mx = kbytes - 2 * R.DIGEST[hid] - 2
@@ -1071,7 +1073,7 @@ def run_rsa(ctx, eng, cases, meta, rsa_cache):
                 continue
             if h in (H.SHA_512, H.MD5) and dsa not in (None, DSA.SHA512_WITH_RSA_ENCRYPTION):
                 continue
-            if quick and size == 2048 and (n % 3):
+            if quick and size == 2048 and (n % 6):
                 n += 1
                 continue
             if size == 1024 and h == H.SHA_512 and pad == P.PSS:
@@ -1156,6 +1158,147 @@ def run_rsa(ctx, eng, cases, meta, rsa_cache):
                     viol(ctx, 'verify_signature', 'signature by digital-signature-algorithm not valid under the equivalent separate parameters', p, {'outcome': o6})
             if ov == 'done' and ok is not True:
                 viol(ctx, 'verify_signature', 'verify with exactly the Sign parameters reports invalid', p, {})
+
+
+# ============================================================================ message LENGTHS for every data-consuming operation
+LONG_LENGTHS = [0, 1, 4095, 4096, 4097, 65535, 65536, 65537, 131072 + 5, (1 << 20) + 3]
+
+
+def long_lengths(bs):
+    return sorted(set(LONG_LENGTHS + [bs - 1, bs, bs + 1]))
+
+
+def run_long_messages(ctx, eng, rsa_cache):
+    """Sign, SignatureVerify, MAC, Encrypt, Decrypt, hash / KDF derivation data over lengths up to 1 MiB + 3, each against
+    the independent reference, with a change in the LAST byte (and in the byte after the last 64 KiB boundary)."""
+    rng = ctx.subrng('long')
+
+    def tails(m):
+        out = [('last byte', flip(m, len(m) - 1))] if m else []
+        if len(m) > 65536 and len(m) % 65536:
+            out.append(('first byte of the last partial 64 KiB piece', flip(m, (len(m) // 65536) * 65536)))
+        return out
+    base = rbytes(rng, 4096)
+
+    def message(n):
+        reps = n // len(base) + 1
+        m = bytearray((base * reps)[:n])
+        for i in range(0, n, 977):           # make the pieces differ
+            m[i] = (m[i] + i // 977) & 255
+        return bytes(m)
+    msgs = {}
+    # ---- MAC
+    for alg, klen in ((A.HMAC_SHA256, 32), (A.HMAC_SHA512, 64), (A.HMAC_SHA1, 20), (A.AES, 16), (A.TRIPLE_DES, 24)):
+        key = rbytes(rng, klen)
+        bs = block_bytes(alg) if alg.name in CIPHER_OF else 64
+        for n in long_lengths(bs):
+            m = msgs.setdefault(n, message(n))
+            o, v, _ = call(eng.mac, alg, key, m)
+            ctx.count('long.mac.%s' % o.split(':')[0])
+            ctx.case_seen(('long-mac', alg.name, n))
+            if alg.name in HMAC_HASH:
+                ref = R.hmac_fn(HMAC_HASH[alg.name])(key, m)
+            else:
+                enc, _, b2 = R.block_fns(CIPHER_OF[alg.name], key)
+                ref = R.cmac(enc, b2, m)
+            pd = {'alg': alg, 'key': key, 'message_length': n}
+            if o != 'done' or v != ref:
+                viol(ctx, 'mac', 'MAC differs from the independent reference', pd, {'outcome': o, 'ref': ref.hex()})
+            for label, m2 in tails(m):
+                o2, v2, _ = call(eng.mac, alg, key, m2)
+                if o2 == 'done' and v2 == v:
+                    viol(ctx, 'mac', 'MAC unchanged although the message was changed in its %s' % label, pd, {})
+    # ---- Encrypt / Decrypt
+    for alg, klen, mode, pad in ((A.AES, 16, M.CBC, P.PKCS5), (A.AES, 32, M.CTR, None), (A.AES, 24, M.GCM, None), (A.AES, 16, M.ECB, P.ANSI_X923),
+                                 (A.TRIPLE_DES, 24, M.CBC, P.PKCS5), (A.CAMELLIA, 16, M.CFB, None), (A.BLOWFISH, 16, M.OFB, None), (A.RC4, 16, None, None)):
+        key = rbytes(rng, klen)
+        bs = block_bytes(alg) or 8
+        for n in long_lengths(bs):
+            if n > 140000 and (alg, mode) not in ((A.AES, M.CBC), (A.AES, M.GCM), (A.RC4, None)):
+                continue
+            m = msgs.setdefault(n, message(n))
+            gcm = mode == M.GCM
+            iv = None if mode in (M.ECB, None) else rbytes(rng, 12 if gcm else bs)
+            aad = b'header' if gcm else None
+            p = dict(alg=alg, key=key, mode=mode, pad=pad, iv=iv, aad=aad, taglen=16 if gcm else None)
+            o, v, _ = call(eng.encrypt, alg, key, m, cipher_mode=mode, padding_method=pad, iv_nonce=iv, auth_additional_data=aad,
+                           auth_tag_length=p['taglen'])
+            ctx.count('long.encrypt.%s' % o.split(':')[0])
+            ctx.case_seen(('long-enc', alg.name, ev(mode), n))
+            pd = dict(pj(p), message_length=n)
+            if o != 'done':
+                viol(ctx, 'encrypt', 'a supported tuple failed on a long message: ' + o, pd, {})
+                continue
+            ct, tag = v['cipher_text'], v.get('auth_tag')
+            rct, rtag = ref_encrypt(p, iv, m)
+            if rct != ct or (gcm and rtag != tag):
+                k = next((i for i in range(min(len(ct), len(rct))) if ct[i] != rct[i]), min(len(ct), len(rct)))
+                viol(ctx, 'encrypt', 'ciphertext differs from the independent reference', pd, {'first_difference_at': k, 'lengths': [len(ct), len(rct)]})
+            o2, v2, _ = call(eng.decrypt, alg, key, ct, cipher_mode=mode, padding_method=pad, iv_nonce=iv, auth_additional_data=aad, auth_tag=tag)
+            if o2 != 'done' or v2 != m:
+                viol(ctx, 'decrypt', 'Decrypt does not invert Encrypt', pd, {'outcome': o2})
+            # the reference's cipher text of the same message decrypts to it as well
+            o3, v3, _ = call(eng.decrypt, alg, key, rct, cipher_mode=mode, padding_method=pad, iv_nonce=iv, auth_additional_data=aad, auth_tag=rtag)
+            if o3 != 'done' or v3 != m:
+                viol(ctx, 'decrypt', 'Decrypt of the reference cipher text is not the message', pd, {'outcome': o3})
+            if gcm and ct:
+                for label, c2 in tails(ct):
+                    o4, v4, _ = call(eng.decrypt, alg, key, c2, cipher_mode=mode, iv_nonce=iv, auth_additional_data=aad, auth_tag=tag)
+                    if o4 == 'done':
+                        viol(ctx, 'decrypt', 'GCM accepted a cipher text changed in its %s' % label, pd, {})
+    # ---- derivation data
+    key = rbytes(rng, 16)
+    for method in (D.HASH, D.HMAC, D.NIST800_108_C):
+        for h in (H.SHA_256, H.SHA_512, H.MD5):
+            hid = HASH_ID[h.name]
+            for n in long_lengths(64):
+                if n > 140000 and h != H.SHA_256:
+                    continue
+                m = msgs.setdefault(n, message(n))
+                q = dict(method=method, len=16, data=m, key=None if method == D.HASH else key, hash=h, salt=None, iters=None)
+                o, v, _ = call(eng.derive_key, method, 16 if method != D.HASH else R.DIGEST[hid], derivation_data=m,
+                               key_material=q['key'], hash_algorithm=h)
+                ctx.count('long.derive.%s' % o.split(':')[0])
+                ctx.case_seen(('long-derive', method.name, h.name, n))
+                ref = ref_derive(q, hid)
+                pd = {'method': method, 'hash': h, 'data_length': n}
+                if o != 'done' or v != ref:
+                    viol(ctx, 'derive_key', 'derived bytes differ from the independent reference', pd, {'outcome': o})
+                for label, m2 in tails(m):
+                    o2, v2, _ = call(eng.derive_key, method, len(ref), derivation_data=m2, key_material=q['key'], hash_algorithm=h)
+                    if o2 == 'done' and v2 == v:
+                        viol(ctx, 'derive_key', 'derived bytes unchanged although the data was changed in its %s' % label, pd, {})
+    # ---- Sign / SignatureVerify
+    if 1024 in rsa_cache:
+        pub, priv = rsa_cache[1024]
+        for dsa, hid, pad, kind in ((DSA.SHA256_WITH_RSA_ENCRYPTION, 4, P.PSS, 'PSS'), (DSA.SHA1_WITH_RSA_ENCRYPTION, 2, P.PKCS1v15, 'PKCS1'),
+                                    (DSA.SHA512_WITH_RSA_ENCRYPTION, 6, P.PKCS1v15, 'PKCS1')):
+            for n in long_lengths(64):
+                m = msgs.setdefault(n, message(n))
+                pd = {'dsa': dsa, 'pad': pad, 'message_length': n}
+                o, sig, _ = call(eng.sign, dsa, None, None, pad, priv, m)
+                ctx.count('long.sign.%s' % o.split(':')[0])
+                ctx.case_seen(('long-sign', dsa.name, ev(pad), n))
+                if o != 'done':
+                    viol(ctx, 'sign', 'Sign failed on a long message: ' + o, pd, {})
+                    continue
+                if not R.rsa_verify(pub, kind, hid, m, sig):
+                    viol(ctx, 'sign', 'the reference verifier rejects the engine signature', pd, {})
+                if kind == 'PKCS1' and R.rsa_sign(priv, kind, hid, m) != sig:
+                    viol(ctx, 'sign', 'PKCS1v15 signature differs from the reference signature', pd, {})
+
+                def vf(mm, ss):
+                    return call(eng.verify_signature, pub, mm, ss, pad, digital_signature_algorithm=dsa)
+                o1, r1, _ = vf(m, sig)
+                if o1 != 'done' or r1 is not True:
+                    viol(ctx, 'verify_signature', 'a signature made by Sign is not reported valid', pd, {'outcome': o1})
+                o2, r2, _ = vf(m, R.rsa_sign(priv, kind, hid, m))
+                if o2 != 'done' or r2 is not True:
+                    viol(ctx, 'verify_signature', 'a correct signature made outside the engine is not reported valid', pd, {'outcome': o2})
+                for label, m2 in tails(m):
+                    o3, r3, _ = vf(m2, sig)
+                    if o3 != 'done' or r3 is not False:
+                        viol(ctx, 'verify_signature', 'a message changed in its %s is not reported invalid' % label, pd, {'outcome': o3, 'result': str(r3)})
 
 
 # ============================================================================ through the server engine handlers
@@ -1575,6 +1718,107 @@ def run_server(ctx, cases, meta, rsa_cache):
             srv.restart()
             check_key('all of the above, then a restart of the engine on the same database')
 
+        # ---------------- CreateKeyPair: Cryptographic Length / Algorithm in the Common vs Public vs Private template.
+        # KMIP 4.2: a key-specific template attribute wins over the Common one; public and private must agree.
+        AT = enums.AttributeType
+        pss256 = kdrv.crypto_params(digital_signature_algorithm=DSA.SHA256_WITH_RSA_ENCRYPTION, padding_method=P.PSS)
+
+        def ckp(common, pubv, privv):
+            def lst(alg, ln, mask):
+                out = []
+                if alg is not None:
+                    out.append(kdrv.attr(AT.CRYPTOGRAPHIC_ALGORITHM, alg))
+                if ln is not None:
+                    out.append(kdrv.attr(AT.CRYPTOGRAPHIC_LENGTH, ln))
+                if mask is not None:
+                    out.append(kdrv.attr(AT.CRYPTOGRAPHIC_USAGE_MASK, [mask]))
+                return out
+            return kdrv.create_key_pair(common=lst(common[0], common[1], None), public=lst(pubv[0], pubv[1], CM.VERIFY),
+                                        private=lst(privv[0], privv[1], CM.SIGN))
+        combos = [((A.RSA, c), (None, pu), (None, pr)) for c in (None, 1024, 2048) for pu in (None, 1024, 2048) for pr in (None, 1024, 2048)]
+        combos += [((c, 1024), (pu, None), (pr, None)) for c in (None, A.RSA, A.DSA) for pu in (None, A.RSA, A.DSA) for pr in (None, A.RSA, A.DSA)]
+        if quick:
+            combos = [c for k, c in enumerate(combos) if c[1][1] != 2048 or c[2][1] != 2048 or k % 3 == 0]
+        for common, pubv, privv in combos:
+            def eff(i):
+                return (pubv[i] if pubv[i] is not None else common[i], privv[i] if privv[i] is not None else common[i])
+            ea, el = eff(0), eff(1)
+            if None in ea or None in el or ea[0] != ea[1] or el[0] != el[1] or ea[0] != A.RSA:
+                want = 'IF'
+            else:
+                want = 'done'
+            pdesc = dict(common_algorithm=common[0], common_length=common[1], public_algorithm=pubv[0], public_length=pubv[1],
+                         private_algorithm=privv[0], private_length=privv[1])
+            o, it, _ = req(ckp(common, pubv, privv))
+            ctx.count('server.create_key_pair_templates.%s' % o.split(':')[0])
+            ctx.case_seen(('srv-ckp', pj(pdesc)))
+            if o != want:
+                viol(ctx, 'CreateKeyPair', 'outcome %s where the templates (key-specific over common; public and private must agree) call for %s' % (o, want), pdesc,
+                     {'message': it['message']})
+                if o != 'done':
+                    continue
+            if o != 'done':
+                continue
+            bits = el[0] if want == 'done' else None
+            pl = it['payload']
+            pr_uid, pu_uid = str(pl['private_key_unique_identifier']), str(pl['public_key_unique_identifier'])
+            _, i1, _ = req(kdrv.get(pu_uid))
+            _, i2, _ = req(kdrv.get(pr_uid))
+            kpub = R.load_public(hx(i1['payload']['secret']['key_block']['key_value']['key_material']))
+            kprv = R.load_private(hx(i2['payload']['secret']['key_block']['key_value']['key_material']))
+            got = {'public_modulus_bits': kpub.key_size, 'private_modulus_bits': kprv.key_size,
+                   'public_length_attribute': i1['payload']['secret']['key_block']['cryptographic_length'],
+                   'private_length_attribute': i2['payload']['secret']['key_block']['cryptographic_length']}
+            req(kdrv.activate(pr_uid))
+            os_, is_, _ = req(kdrv.sign(pr_uid, pss256, data=b'size'))
+            got['signature_bytes'] = len(hx(is_['payload']['signature_data'])) if os_ == 'done' else None
+            if bits is not None and (set(v for k, v in got.items() if k != 'signature_bytes') != {bits} or got['signature_bytes'] != bits // 8
+                                     or kpub.public_numbers() != kprv.public_key().public_numbers()):
+                viol(ctx, 'CreateKeyPair', 'generated key material does not have the length the templates ask for (key-specific template over common)',
+                     pdesc, dict(got, requested_bits=bits))
+        # ---------------- long messages through the handlers
+        kL = rbytes(rng, 16)
+        uL = reg_sym(A.AES, kL, allmask)
+        o, it, _ = req(kdrv.create_key_pair(A.RSA, 1024))
+        lp = it['payload'] if o == 'done' else None
+        if uL is not None and lp is not None:
+            prL, puL = str(lp['private_key_unique_identifier']), str(lp['public_key_unique_identifier'])
+            req(kdrv.activate(prL))
+            req(kdrv.activate(puL))
+            _, itp, _ = req(kdrv.get(puL))
+            pubL = hx(itp['payload']['secret']['key_block']['key_value']['key_material'])
+            cbcL = kdrv.crypto_params(cryptographic_algorithm=A.AES, block_cipher_mode=M.CBC, padding_method=P.PKCS5)
+            for n in (4097, 65537, 131072 + 5):
+                m = rbytes(rng, 64) * (n // 64) + rbytes(rng, n % 64)
+                m = bytes(m[:70000]) + flip(m[70000:70001] or b'\x00')[:len(m[70000:70001])] + bytes(m[70001:])
+                ivL = rbytes(rng, 16)
+                pd = {'message_length': n}
+                o, it, _ = req(kdrv.encrypt(uL, cbcL, data=m, iv=ivL))
+                ctx.count('server.long.encrypt.%s' % o.split(':')[0])
+                ct = hx((it['payload'] or {}).get('data'))
+                if o != 'done' or ct != ref_encrypt(dict(alg=A.AES, key=kL, mode=M.CBC, pad=P.PKCS5, aad=None), ivL, m)[0]:
+                    viol(ctx, 'Encrypt', 'response differs from the independent reference (long message)', pd, {'outcome': o})
+                elif True:
+                    o2, it2, _ = req(kdrv.decrypt(uL, cbcL, data=ct, iv=ivL))
+                    if o2 != 'done' or hx(it2['payload']['data']) != m:
+                        viol(ctx, 'Decrypt', 'Decrypt does not invert Encrypt (long message)', pd, {'outcome': o2})
+                o, it, _ = req(kdrv.mac(uL, kdrv.crypto_params(cryptographic_algorithm=A.HMAC_SHA256), data=m))
+                if o != 'done' or hx(it['payload']['mac_data']) != R.hmac_fn(4)(kL, m):
+                    viol(ctx, 'MAC', 'response differs from the independent reference (long message)', pd, {'outcome': o})
+                o, it, _ = req(kdrv.sign(prL, pss256, data=m))
+                ctx.count('server.long.sign.%s' % o.split(':')[0])
+                if o != 'done':
+                    viol(ctx, 'Sign', 'failed on a long message: ' + o, pd, {})
+                    continue
+                sg = hx(it['payload']['signature_data'])
+                if not R.rsa_verify(pubL, 'PSS', 4, m, sg):
+                    viol(ctx, 'Sign', 'the reference verifier rejects the signature (long message)', pd, {})
+                for label, mm, want in (('same message', m, 'VALID'), ('last byte changed', flip(m, n - 1), 'INVALID')):
+                    o3, it3, _ = req(kdrv.signature_verify(puL, pss256, data=mm, signature=sg))
+                    v3 = (it3['payload'] or {}).get('validity_indicator')
+                    if o3 != 'done' or v3 != want:
+                        viol(ctx, 'SignatureVerify', '%s: expected %s (long message)' % (label, want), pd, {'outcome': o3, 'validity': v3})
+
         # ---------------- Create / CreateKeyPair / Sign / SignatureVerify
         seen = set()
         for alg, bits in [(A.AES, 128), (A.AES, 256), (A.TRIPLE_DES, 192), (A.BLOWFISH, 448), (A.CAMELLIA, 192), (A.CAST5, 40), (A.RC4, 256)]:
@@ -1739,15 +1983,27 @@ def run(ctx):
         cases, meta = [], []
         rsa_cache = {}
         run_padding(ctx, cases, meta)
+        ctx.log('  section run_padding done')
         run_symmetric(ctx, eng, cases, meta)
+        ctx.log('  section run_symmetric done')
         run_authenticated_empty(ctx, eng, cases, meta)
+        ctx.log('  section run_authenticated_empty done')
         run_mac(ctx, eng, cases, meta)
+        ctx.log('  section run_mac done')
         run_derive(ctx, eng, cases, meta)
+        ctx.log('  section run_derive done')
         run_wrap(ctx, eng, cases, meta)
+        ctx.log('  section run_wrap done')
         run_create(ctx, eng, cases, meta, rsa_cache)
+        ctx.log('  section run_create done')
         run_rsa(ctx, eng, cases, meta, rsa_cache)
+        ctx.log('  section run_rsa done')
         pss_leading_zero(ctx, eng, rsa_cache)
+        ctx.log('  section pss_leading_zero done')
+        run_long_messages(ctx, eng, rsa_cache)
+        ctx.log('  section run_long_messages done')
         run_server(ctx, cases, meta, rsa_cache)
+        ctx.log('  section run_server done')
         ctx.log('built %d Coq cases' % len(cases))
         bad = ctx.run_cases('plans', HEADER, cases, 'check_ccase', shard=600, what='outcome class + observed primitive call vs Crypto/Plan.v')
         for i in bad[:20]:
